@@ -68,7 +68,7 @@ BB_ASSUME = ["arbitrary builder state satisfying the builder invariant (counter 
              "x86_64 little-endian model"]
 add("bb_add_step", ["C09", "C01", "C11"], ["tu/bb_step.c", "$REPO/mtbl/varint.c", "$REPO/mtbl/fixed.c"], "h_bb_add_step",
     unwind=7, strength="B: one block_builder_add from an arbitrary builder state; key/value <= 4 bytes, block prefix <= 16 bytes", timeout=900, slice=6,
-    functions=["block_builder_add", "block_builder_current_size_estimate", "parse_next_key", "decode_entry", "mtbl_varint_encode32", "mtbl_varint_decode32", "ubuf_*"],
+    functions=["block_builder_add", "block_builder_current_size_estimate", "parse_next_key", "decode_entry", "mtbl_varint_encode32", "mtbl_varint_decode32", "ubuf_*"], replay="c08",
     assumptions=BB_ASSUME)
 add("bb_finish_step", ["C09", "C01", "C11"], ["tu/bb_step.c", "$REPO/mtbl/varint.c", "$REPO/mtbl/fixed.c"], "h_bb_finish_step",
     unwind=7, strength="B: block_builder_finish/reset + block_init from an arbitrary builder state; <= 16 entry bytes, <= 3 restart points (32-bit restart regime)", timeout=900,
